@@ -104,6 +104,7 @@ def build_tree_subject(r):
     if deco:
         t.label = "tree"
         t.weight = 0.5
+        t.length_type = "substitutions"
         t.extra = {"k": [1, 2]}
         decorate_annotable(t, "tree", deco, "weight")
         for i, n in enumerate(C._pre(t._seed_node)):
@@ -251,8 +252,16 @@ ROUTES = {
 MON = {"tree": "Tree", "treelist": "TreeList", "matrix": "CharacterMatrix", "ns": "TaxonNamespace"}
 
 
-def monitor(kind, route, clause):
-    return "%s.%s.%s" % (MON[kind], route, clause)
+def monitor(kind, route, clause, recipe=None):
+    """<Class>.<route>[+input class].<clause>; copies of copies and matrices whose per-cell annotation sets were created
+    while the cell had no character type get names of their own (so that a finding can be pinned by name)"""
+    tag = ""
+    if recipe is not None:
+        if recipe.get("via"):
+            tag = "+after-%s" % recipe["via"]
+        elif recipe.get("kind") == "matrix" and recipe.get("deco") == 3:
+            tag = "+untyped-cell-annotations"
+    return "%s.%s%s.%s" % (MON[kind], route, tag, clause)
 
 
 # ============================================================================= dumps
@@ -865,7 +874,7 @@ def t2(ctx):
             if clause in seen:
                 continue
             seen.add(clause)
-            ctx.fail(monitor(kind, job["route"], clause), {"key": key, "job": job, "scope": scope}, detail="%s: %s" % (key, det))
+            ctx.fail(monitor(kind, job["route"], clause, job["recipe"]), {"key": key, "job": job, "scope": scope}, detail="%s: %s" % (key, det))
 
 
 def replay(ctx, rec):
@@ -875,7 +884,7 @@ def replay(ctx, rec):
     kind = job["recipe"]["kind"]
     hit = False
     for clause, det in res:
-        name = monitor(kind, job["route"], clause)
+        name = monitor(kind, job["route"], clause, job["recipe"])
         print("  replay: %s: %s" % (name, det))
         if name == rec["obligation"]:
             hit = True
